@@ -70,8 +70,8 @@ func (c c18Case) inContract() bool {
 		return false
 	}
 	if !c.Bare {
-		if _, err := netip.ParseAddr(c.IP); err != nil {
-			return false
+		if _, err := netip.ParseAddr(c.IP); err != nil || strings.ContainsAny(c.IP, " \t#$\n\r") {
+			return false // not an address token (netip accepts blanks inside a zone)
 		}
 	}
 	if c.Comment != nil {
